@@ -15,41 +15,50 @@ def run(refs, threads=(1, 2, 3), shapes=(0, 1, 2), env=None):
     errors = []
     d = tempfile.mkdtemp(prefix="spin-", dir=os.path.join(vp.VERIF, "build"))
     try:
-        for sh in shapes:
-            for N in threads:
-                wd = os.path.join(d, "s%d_n%d" % (sh, N))
-                os.makedirs(wd)
-                r = subprocess.run(["spin", "-a", "-DNTHREADS=%d" % N, "-DSHAPE=%d" % sh, os.path.join(vp.VERIF, "models/omp_tasks.pml")],
-                                   cwd=wd, capture_output=True, text=True)
-                if r.returncode or not os.path.exists(os.path.join(wd, "pan.c")):
-                    errors.append("spin -a failed: " + (r.stdout + r.stderr)[-300:])
-                    continue
-                r = subprocess.run(["gcc", "-O2", "-w", "-DNOREDUCE", "-DMEMLIM=8000", "-DVECTORSZ=2048", "-o", "pan", "pan.c"], cwd=wd, capture_output=True, text=True)
-                if r.returncode:
-                    errors.append("pan compile failed: " + r.stderr[-300:])
-                    continue
-                r = subprocess.run(["./pan", "-m1000000", "-c0", "-e"], cwd=wd, capture_output=True, text=True, timeout=1800)
-                paths = [l for l in r.stdout.split("\n") if l.startswith("PATH")]
-                orders = set(l.split()[1] for l in paths if len(l.split()) > 1)
-                m = re.search(r"errors: (\d+)", r.stdout)
-                st = re.search(r"(\d+) states, stored", r.stdout)
-                model_errors = int(m.group(1)) if m else -1
-                k = SHAPES[sh][0]
-                rr = subprocess.run([exe, "--mode", "explore", "--input", str(k), "--threads", str(N), "--nested", "0", "--bound", "99",
-                                     "--onlybound", "1", "--yields", "0", "--lazy", "0", "--cost", "0", "--ref", refs[k]],
-                                    capture_output=True, text=True, env=env, timeout=1800)
-                b = [l for l in rr.stdout.split("\n") if l.startswith("B ")]
-                f = [l for l in rr.stdout.split("\n") if l.startswith("F ") or l.startswith("C ")]
-                impl = dict(kv.split("=") for kv in b[-1][2:].split()) if b else {}
-                rec = {"shape": SHAPES[sh][1], "threads": N, "model_paths": len(paths), "model_merge_orders": len(orders),
-                       "model_states": int(st.group(1)) if st else 0, "model_errors": model_errors,
-                       "impl_schedules": int(impl.get("executions", -1)), "impl_event_orders": int(impl.get("orders", -1)),
-                       "impl_complete": impl.get("complete") == "1"}
-                rec["agree"] = (rec["model_errors"] == 0 and rec["impl_complete"] and rec["model_paths"] == rec["impl_schedules"]
-                                and rec["model_merge_orders"] == rec["impl_event_orders"] and not f)
-                out.append(rec)
-                if f:
-                    errors.append("explorer reported a failure during the conformance run: " + f[0][:200])
+        from concurrent.futures import ThreadPoolExecutor
+
+        def one(cfg):
+            sh, N = cfg
+            o, e = [], []
+            wd = os.path.join(d, "s%d_n%d" % (sh, N))
+            os.makedirs(wd)
+            r = subprocess.run(["spin", "-a", "-DNTHREADS=%d" % N, "-DSHAPE=%d" % sh, os.path.join(vp.VERIF, "models/omp_tasks.pml")],
+                               cwd=wd, capture_output=True, text=True)
+            if r.returncode or not os.path.exists(os.path.join(wd, "pan.c")):
+                e.append("spin -a failed: " + (r.stdout + r.stderr)[-300:])
+                return o, e
+            r = subprocess.run(["gcc", "-O2", "-w", "-DNOREDUCE", "-DMEMLIM=8000", "-DVECTORSZ=2048", "-o", "pan", "pan.c"], cwd=wd, capture_output=True, text=True)
+            if r.returncode:
+                e.append("pan compile failed: " + r.stderr[-300:])
+                return o, e
+            r = subprocess.run(["./pan", "-m1000000", "-c0", "-e"], cwd=wd, capture_output=True, text=True, timeout=1800)
+            paths = [l for l in r.stdout.split("\n") if l.startswith("PATH")]
+            orders = set(l.split()[1] for l in paths if len(l.split()) > 1)
+            m = re.search(r"errors: (\d+)", r.stdout)
+            st = re.search(r"(\d+) states, stored", r.stdout)
+            model_errors = int(m.group(1)) if m else -1
+            k = SHAPES[sh][0]
+            rr = subprocess.run([exe, "--mode", "explore", "--input", str(k), "--threads", str(N), "--nested", "0", "--bound", "99",
+                                 "--onlybound", "1", "--yields", "0", "--lazy", "0", "--cost", "0", "--ref", refs[k]],
+                                capture_output=True, text=True, env=env, timeout=1800)
+            b = [l for l in rr.stdout.split("\n") if l.startswith("B ")]
+            f = [l for l in rr.stdout.split("\n") if l.startswith("F ") or l.startswith("C ")]
+            impl = dict(kv.split("=") for kv in b[-1][2:].split()) if b else {}
+            rec = {"shape": SHAPES[sh][1], "threads": N, "model_paths": len(paths), "model_merge_orders": len(orders),
+                   "model_states": int(st.group(1)) if st else 0, "model_errors": model_errors,
+                   "impl_schedules": int(impl.get("executions", -1)), "impl_event_orders": int(impl.get("orders", -1)),
+                   "impl_complete": impl.get("complete") == "1"}
+            rec["agree"] = (rec["model_errors"] == 0 and rec["impl_complete"] and rec["model_paths"] == rec["impl_schedules"]
+                            and rec["model_merge_orders"] == rec["impl_event_orders"] and not f)
+            o.append(rec)
+            if f:
+                e.append("explorer reported a failure during the conformance run: " + f[0][:200])
+            return o, e
+
+        with ThreadPoolExecutor(6) as ex:
+            for o, e in ex.map(one, [(sh, N) for sh in shapes for N in threads]):
+                out += o
+                errors += e
     finally:
         shutil.rmtree(d, ignore_errors=True)
     return out, errors
